@@ -6,10 +6,13 @@ the extra degrees of freedom those properties need:
   shape [nx,ny,nz]   T steps   res   cf (courant factor; 0.5*sqrt(3) makes config.courant_number exactly 0.5)
   bounds {"min_x": "pml"|"periodic"|"pec"|"pmc"|"bloch", ...}  (missing: "periodic"),  pml (thickness),
   kvec   [kx,ky,kz] bloch vector (rad/m)
-  slabs  [{"lo","hi","eps": float | [ex,ey,ez], "mu": ..., "sigma": ..., "name"}]
+  slabs  [{"lo","hi","eps": float | [ex,ey,ez] | [[xx,xy,xz],[yx,yy,yz],[zx,zy,zz]], "mu": ..., "sigma": ..., "name"}]
   sources   [{"kind":"dipole"|"mdipole","pos","pol","amp","wl","switch"} |
              {"kind":"plane","axis":a,"dir":"+","pos":k,"epol":[..] ,"wl","amp", "lo":[..],"hi":[..] (optional)}]
   detectors [{"kind":"field"|"energy"|"poynting"|"phasor","name","lo","hi","exact":bool,"axis","switch"}]
+  every slab / source / detector entry may carry "place": "grid" (default: set_grid_coordinates) | "real"
+  (RealCoordinateConstraint on all three axes, min sides pinned at the physical edge coordinate, domain centre = 0) |
+  "center" (partial_real_position = physical centre of the object relative to the domain centre)
   grid   "uniform" (default) | "rect" (explicit RectilinearGrid, equal spacings) | "quasi" (QuasiUniformGrid)
   symmetry [sx,sy,sz]   complex bool   key int
 """
@@ -68,6 +71,24 @@ def make_switch(sw):
     return fdtdx.OnOffSwitch(**sw) if sw else fdtdx.OnOffSwitch()
 
 
+def _placement(sc, entry, name, lo, hi):
+    """-> (constructor kwargs, constraint factory(obj) -> list) for the entry's placement mode"""
+    mode = entry.get("place", "grid")
+    res = sc.get("res", 50e-9)
+    n = sc["shape"]
+    if mode == "grid":
+        return {}, lambda o: [o.set_grid_coordinates(axes=(0, 1, 2), sides=("-", "-", "-"), coordinates=tuple(lo))]
+    if mode == "real":
+        from fdtdx.objects.object import RealCoordinateConstraint
+
+        coords = tuple((lo[a] - n[a] / 2) * res for a in range(3))
+        return {}, lambda o: [RealCoordinateConstraint(object=name, axes=(0, 1, 2), sides=("-", "-", "-"), coordinates=coords)]
+    if mode == "center":
+        pos = tuple(((lo[a] + hi[a]) / 2 - n[a] / 2) * res for a in range(3))
+        return {"partial_real_position": pos}, lambda o: []
+    raise ValueError(mode)
+
+
 def build(sc: dict, config=None):
     """-> (objects, arrays, config) through place_objects / apply_params."""
     import jax
@@ -90,26 +111,31 @@ def build(sc: dict, config=None):
     constraints.extend(clist)
     for n, sl in enumerate(sc.get("slabs", [])):
         eps = sl.get("eps", 2.0)
-        eps = tuple(eps) if isinstance(eps, (list, tuple)) else eps
+        if isinstance(eps, (list, tuple)):   # 3 diagonal entries, or a full 3x3 tensor as nested rows
+            eps = tuple(tuple(float(v) for v in r) if isinstance(r, (list, tuple)) else float(r) for r in eps)
         mu = sl.get("mu", 1.0)
         mu = tuple(mu) if isinstance(mu, (list, tuple)) else mu
         sig = sl.get("sigma", 0.0)
         sig = tuple(sig) if isinstance(sig, (list, tuple)) else sig
         mat = fdtdx.Material(permittivity=eps, permeability=mu, electric_conductivity=sig)
         shape = tuple(h - l for l, h in zip(sl["lo"], sl["hi"]))
-        slab = fdtdx.UniformMaterialObject(name=sl.get("name", f"slab{n}"), partial_grid_shape=shape, material=mat)
-        constraints.append(slab.set_grid_coordinates(axes=(0, 1, 2), sides=("-", "-", "-"), coordinates=tuple(sl["lo"])))
+        nm = sl.get("name", f"slab{n}")
+        pkw, pcon = _placement(sc, sl, nm, sl["lo"], sl["hi"])
+        slab = fdtdx.UniformMaterialObject(name=nm, partial_grid_shape=shape, material=mat, **pkw)
+        constraints.extend(pcon(slab))
         objects.append(slab)
     for n, s in enumerate(sc.get("sources", [])):
         wc = fdtdx.WaveCharacter(wavelength=s.get("wl", 800e-9))
         kind = s.get("kind", "dipole")
         if kind in ("dipole", "mdipole"):
-            kw = dict(name=s.get("name", f"src{n}"), partial_grid_shape=(1, 1, 1), wave_character=wc, polarization=s.get("pol", 0),
-                      amplitude=s.get("amp", 1.0), switch=make_switch(s.get("switch")))
+            nm = s.get("name", f"src{n}")
+            pkw, pcon = _placement(sc, s, nm, list(s["pos"]), [x + 1 for x in s["pos"]])
+            kw = dict(name=nm, partial_grid_shape=(1, 1, 1), wave_character=wc, polarization=s.get("pol", 0),
+                      amplitude=s.get("amp", 1.0), switch=make_switch(s.get("switch")), **pkw)
             if kind == "mdipole":
                 kw["source_type"] = "magnetic"
             src = fdtdx.PointDipoleSource(**kw)
-            constraints.append(src.set_grid_coordinates(axes=(0, 1, 2), sides=("-", "-", "-"), coordinates=tuple(s["pos"])))
+            constraints.extend(pcon(src))
         elif kind == "plane":
             a = s["axis"]
             lo = list(s.get("lo", [0, 0, 0]))
@@ -125,8 +151,10 @@ def build(sc: dict, config=None):
         objects.append(src)
     for n, d in enumerate(sc.get("detectors", [])):
         shape = tuple(h - l for l, h in zip(d["lo"], d["hi"]))
-        kw = dict(name=d.get("name", f"det{n}"), partial_grid_shape=shape, switch=make_switch(d.get("switch")), plot=False, dtype=jnp.float64,
-                  exact_interpolation=d.get("exact", True))
+        nm = d.get("name", f"det{n}")
+        pkw, pcon = _placement(sc, d, nm, d["lo"], d["hi"])
+        kw = dict(name=nm, partial_grid_shape=shape, switch=make_switch(d.get("switch")), plot=False, dtype=jnp.float64,
+                  exact_interpolation=d.get("exact", True), **pkw)
         k = d["kind"]
         if k == "energy":
             det = fdtdx.EnergyDetector(**kw, as_slices=False, reduce_volume=d.get("reduce", False))
@@ -139,7 +167,7 @@ def build(sc: dict, config=None):
             det = fdtdx.PhasorDetector(**kw, wave_characters=(fdtdx.WaveCharacter(wavelength=d.get("wl", 800e-9)),), reduce_volume=d.get("reduce", False))
         else:
             raise ValueError(k)
-        constraints.append(det.set_grid_coordinates(axes=(0, 1, 2), sides=("-", "-", "-"), coordinates=tuple(d["lo"])))
+        constraints.extend(pcon(det))
         objects.append(det)
     key = jax.random.PRNGKey(sc.get("key", 0))
     obj, arrays, params, config, _ = fdtdx.place_objects(object_list=objects, config=config, constraints=constraints, key=key)
